@@ -283,6 +283,28 @@ class World:
                 self.models.pop(mkey, None)
             elif isinstance(y3, Raised) or not torch.equal(y3.dequantize() if isinstance(y3, QTensor) else y3, d1):
                 f.append((f"forward/{step['model']}/not-repeatable", "evaluating the same input again after a batch of another dtype gives another result"))
+            elif step["model"] in ("calibrated", "unfrozen") and step.get("seed", 0) % 2 == 0:
+                # inference leaves no hidden state behind: after the float weights are rescaled through .data (pruning / clipping
+                # code), this model and a FRESH model brought to the same state evaluate identically
+                fresh = _mk(step["model"], {"calibrated": 1, "frozen": 2, "unfrozen": 3}[step["model"]])
+                if prep & 1:
+                    fresh.eval()
+                if prep & 2:
+                    fresh.requires_grad_(False)
+                for mod in (m, fresh):
+                    for p_ in mod.parameters():
+                        if not isinstance(p_, QTensor) and p_.ndim >= 2:
+                            p_.data.mul_(0.5)
+                with torch.no_grad():
+                    ya, yb = cut(m, x), cut(fresh, x)
+                for p_ in m.parameters():
+                    if not isinstance(p_, QTensor) and p_.ndim >= 2:
+                        p_.data.mul_(2.0)
+                da = ya.dequantize() if isinstance(ya, QTensor) else ya
+                db = yb.dequantize() if isinstance(yb, QTensor) else yb
+                if isinstance(ya, Raised) or isinstance(yb, Raised) or not torch.equal(da, db):
+                    f.append((f"forward/{step['model']}/earlier-inference-changes-later-outputs", "after the same update of the float weights, the model that had run an inference before and a fresh model in the same state give different outputs"))
+                    self.models.pop(mkey, None)
         elif op == "new_module":
             if self.stack:
                 return f
